@@ -32,6 +32,15 @@ func runC15(c *core.Ctx) {
 	el := newEntryLocks(c, lc)
 	fns := srcFuncsOfPkg(c, rel)
 
+	// events are fanned out from a snapshot of the subscriber table (rule shared with C13)
+	{
+		lc13 := core.NewLockCache()
+		c.Doc("C13.table", "the signal registration table is read and written under its mutex and not used after the lock is released", 8)
+		guardedBy(c, lc13, newEntryLocks(c, lc13), "C13.table", guardedField{Rel: "bus", Struct: "signalHandler", Field: "signals", Mutex: "signalsMutex",
+			Reason: "registrations are added/removed by the mailbox goroutine, by disconnect closers and read by emitters"})
+	}
+	c.Doc("C14.serial", "the directory object's mails are handled one at a time by one goroutine (rule shared with C14)", 2)
+	ruleMailboxSerial(c, "C14.serial")
 	c.Doc("C15.pairing", "mutex operations balanced on every path (bus/directory)", 4)
 	var handwritten []*ssa.Function
 	for _, fn := range fns {
@@ -475,7 +484,32 @@ func checkEvent(c *core.Ctx, fn *ssa.Function, name string, lk *ssa.Lookup, tr s
 			c.Fail("C15.events", key, call.Pos(), name+" can be emitted twice for one transition (second emission at "+c.Pos(again.Pos())+")")
 			continue
 		}
-		c.Pass("C15.events", key, call.Pos(), "guarded by the lookup, carries the entry's id and name, not repeatable")
+		// same critical section as the state change: no release of a directory
+		// mutex between the transition and the emission (in either order)
+		split := false
+		for _, blk := range fn.Blocks {
+			for _, x := range blk.Instrs {
+				lcall, ok := x.(ssa.CallInstruction)
+				if !ok {
+					continue
+				}
+				op, ok := core.LockOpOf(lcall)
+				if !ok || (op.Kind != core.OpUnlock && op.Kind != core.OpRUnlock) {
+					continue
+				}
+				if _, isDefer := x.(*ssa.Defer); isDefer {
+					continue
+				}
+				if unlockBetween(fn, tr, in, op.Class) || unlockBetween(fn, in, tr, op.Class) {
+					split = true
+				}
+			}
+		}
+		if split {
+			c.Fail("C15.events", key, call.Pos(), name+" is emitted in another critical section than the state change it announces (the mutex is released in between): a concurrent registration/unregistration of the same service can run in the gap, and subscribers see the events in an order that never happened (removed before added)")
+			continue
+		}
+		c.Pass("C15.events", key, call.Pos(), "guarded by the lookup, carries the entry's id and name, not repeatable, in the critical section of the state change")
 	}
 	// at least once on every success path through the transition, unless the helper is nil
 	recvIsNil := func(v ssa.Value) bool {
